@@ -1054,7 +1054,7 @@ submit_hash_burst_and_check(IMB_MGR *state, IMB_JOB *jobs, const uint32_t n_jobs
 
         if (run_check) {
                 if (jobs == NULL) {
-                        imb_set_errno(NULL, IMB_ERR_NULL_JOB);
+                        imb_set_errno(state, IMB_ERR_NULL_BURST);
                         return 0;
                 }
         }
